@@ -14,7 +14,7 @@ use serde::{Deserialize, Serialize};
 pub const INFO: PropInfo = PropInfo {
     id: "C05",
     level: "exploration",
-    rule: "cases = (directory tree, pattern word, noglob, cd). Tree: <=12 entries, depth <=3, names from {a b ab .a .b - [ * a] ? sub 'a b' \\x a\\b}: regular files, directories (some without search permission, mode 644), symbolic links (to file, to directory, dangling, relative with ../, absolute, to . and .., self-loop). Word: 1-3 components joined by / or //, optional prefix ./ ../ /work/ .// ../work/ /work/sub/../, optional trailing /, component text over {a b s u . - * ? [ ] !} with quoted segments ('..', \"..\", \\c) and parts coming from an unquoted ${v} (active pattern characters, backslash escapes) or a quoted \"${v}\" (literal); 45% of the random words are obtained by generalising the components of a path that exists in the tree (name -> *, x*, *x, one character -> ?, [x]rest, [!y]rest, quoted name, ${v}). The real shell runs `probe WORD` (optionally after `set -f` / `cd sub`) on the simulated OS with the tree under /work; the argument list the probe receives must be the model's: every existing pathname that matches component-wise (leading-period rule, slash only literally, quoted characters literal, . and .. only by literal components), strictly ascending in byte order (=> no duplicate), nothing else; or the word with quotes removed if nothing matches / noglob / no active wildcard. Exhaustive part: 4 (thorough 6) fixed trees x all patterns of <=2 components (thorough: also 3 components over the first 14) over a fixed component alphabet of 26 (thorough 54), plus every 1-component pattern under noglob and after cd; random part: proptest (tree, word) pairs with shrinking. Non-trivial = the word has >=1 component with an active wildcard AND some wildcard component matched >=1 directory entry of the tree (which implies that every earlier component was matched by the tree); distinct by serialised case.",
+    rule: "cases = (directory tree, pattern word, noglob, cd). Tree: <=12 entries, depth <=3, names from {a b ab .a .b - [ * a] ? sub 'a b' \\x a\\b}: regular files, directories (some without search permission, mode 644), symbolic links (to file, to directory, dangling, relative with ../, absolute, to . and .., self-loop). Word: 1-3 components joined by / or //, optional prefix ./ ../ /work/ .// ../work/ /work/sub/../ or a tilde expansion `~/` with HOME naming a directory whose name may contain * [ \\ or a blank, optional trailing /, component text over {a b s u . - * ? [ ] !} with quoted segments ('..', \"..\", \\c) and parts coming from an unquoted ${v} (active pattern characters, backslash escapes) or a quoted \"${v}\" (literal); 45% of the random words are obtained by generalising the components of a path that exists in the tree (name -> *, x*, *x, one character -> ?, [x]rest, [!y]rest, quoted name, ${v}). The real shell runs `probe WORD` (optionally after `set -f` / `cd sub`) on the simulated OS with the tree under /work; the argument list the probe receives must be the model's: every existing pathname that matches component-wise (leading-period rule, slash only literally, quoted characters literal, . and .. only by literal components), strictly ascending in byte order (=> no duplicate), nothing else; or the word with quotes removed if nothing matches / noglob / no active wildcard. Exhaustive part: 4 (thorough 6) fixed trees x all patterns of <=2 components (thorough: also 3 components over the first 14) over a fixed component alphabet of 26 (thorough 54), plus every 1-component pattern under noglob and after cd; random part: proptest (tree, word) pairs with shrinking. Non-trivial = the word has >=1 component with an active wildcard AND some wildcard component matched >=1 directory entry of the tree (which implies that every earlier component was matched by the tree); distinct by serialised case.",
     assumptions: &[
         "POSIX locale: results sorted by byte value",
         "read permission on directories is always granted (the simulated OS does not model it and the sandbox runs as root): unreadable-directory cases are not generated",
@@ -86,6 +86,9 @@ fn check_with(c: &GlobCase, q: Quirks) -> Outcome {
     }
     for (i, v) in vals.iter().enumerate() {
         script.push_str(&format!("v{i}={}\n", sq(v)));
+    }
+    if let Some(Seg::Tilde(home)) = c.word.first() {
+        script.push_str(&format!("HOME={}\n", sq(home)));
     }
     if let Some(d) = &cd {
         script.push_str(&format!("cd {d}\n"));
@@ -461,7 +464,11 @@ const VAR_PATHS: [&str; 10] = ["sub/*", "*/a", "*/*", "./*", "s*/.*", "*/", "sub
 
 fn arb_word() -> impl Strategy<Value = Vec<Seg>> {
     let structured = (
-        prop::sample::select(vec!["", "", "", "", "", "", "", "", "", "./", "./", "../", "/work/", "/work/", ".//", "../work/", "/work/sub/../"]),
+        prop::sample::select(vec![
+            "", "", "", "", "", "", "", "", "", "./", "./", "../", "/work/", "/work/", ".//", "../work/", "/work/sub/../",
+            // `~`-prefixed entries stand for a tilde expansion with HOME = the rest
+            "~/work/sub", "~/work/*", "~/work/[", "~/work/\\x", "~/work/a b", "~/work/a\\b", "~/work",
+        ]),
         prop::collection::vec((arb_component(), prop::bool::weighted(0.12)), 1..4),
         (arb_wild_component(), any::<u8>(), prop::bool::weighted(0.85)),
         prop::bool::weighted(0.15),
@@ -473,6 +480,11 @@ fn arb_word() -> impl Strategy<Value = Vec<Seg>> {
                 comps[k].0 = wild;
             }
             let mut w = vec![lit(prefix)];
+            if prefix.starts_with('~') {
+                // tilde expansion: `~/...` with HOME naming a directory of the tree (or not); the
+                // result of the expansion is literal whatever characters it contains
+                w = vec![Seg::Tilde(prefix[1..].to_string()), lit("/")];
+            }
             for (i, (c, doubled)) in comps.into_iter().enumerate() {
                 if i > 0 {
                     w.push(lit(if doubled { "//" } else { "/" }));
